@@ -309,12 +309,12 @@ async def soak(loop, acc, V, seed, rounds=12, rate=0.08, chunking="whole", windo
             if r["outcome"] == "ret":
                 acc.hit("fullstack_c12_confirmed_returns")
         else:
-            try:
-                if not link["failed"] and len(app._pending) != 0:
-                    out.append(("C12", "C12/fullstack/pending-entry-left",
-                                f"v{V}: {len(app._pending)} entr(y/ies) left in the pending table 30 s after the last request ended: {list(app._pending)[:4]}", hist))
-            except AttributeError:
-                pass
+            from .checks.c12 import request_entries
+
+            left = request_entries(app, {(r["dest"], tg) for r in all_reqs for tg in r["tags"]})
+            if not link["failed"] and left:
+                out.append(("C12", "C12/fullstack/pending-entry-left",
+                            f"v{V}: entries of finished requests still held by the application 30 s after the last one ended: {left[:4]}", hist))
             if all_reqs:
                 acc.hit("fullstack_c12_judged")
         faults = ws.line.faults_applied
